@@ -574,7 +574,11 @@ def run_property(pid, tier, seed):
         "wall_s": round(time.time() - t0, 2),
         "violations": (1 if exit_code == 1 else 0),
     }
-    checker.write_json(os.path.join(ROOT, "evidence", "%s.json" % pid), ev)
+    # VERIF_EVIDENCE_DIR lets the seeded-change runs (harness/seedtest.py) keep their evidence out of
+    # the committed directory; every registered command writes to /verif/evidence
+    evdir = os.environ.get("VERIF_EVIDENCE_DIR") or os.path.join(ROOT, "evidence")
+    os.makedirs(evdir, exist_ok=True)
+    checker.write_json(os.path.join(evdir, "%s.json" % pid), ev)
     print("%s %s tier=%s seed=%d obligations=%d/%d wall=%.1fs" % (
         pid, "PASS" if exit_code == 0 else "FAIL", tier, seed, n_dis, n_obl, time.time() - t0))
     return exit_code
